@@ -3,6 +3,7 @@ package main
 import (
 	"fmt"
 	"regexp"
+	"sort"
 	"strings"
 )
 
@@ -183,7 +184,13 @@ func unfoldRecs(prelude, body string, levels int) (string, string) {
 			for _, e := range exprs {
 				collectApps(e, d.name, nil, apps)
 			}
-			for k, app := range apps {
+			keys := make([]string, 0, len(apps))
+			for k := range apps {
+				keys = append(keys, k)
+			}
+			sort.Strings(keys) // deterministic query text: solver behaviour depends on assertion order
+			for _, k := range keys {
+				app := apps[k]
 				if done[k] || len(app.list) != len(d.params)+1 {
 					continue
 				}
